@@ -68,24 +68,100 @@ pub static PROGRESS: AtomicU64 = AtomicU64::new(0);
 
 mod d {
     pub const FLAVOUR: &str = "digraph";
+    macro_rules! dot_attr {
+        ($g:expr, $ga:expr, $na:expr, $ea:expr) => {{
+            let (ga, na, ea) = ($ga, $na, $ea);
+            $g.to_dot_with_attr(
+                &|_g| match ga {
+                    1 => Some(vec![("rankdir".to_string(), "LR".to_string()), ("label".to_string(), "g".to_string())]),
+                    2 => Some(vec![]),
+                    _ => None,
+                },
+                &|n| match na {
+                    1 => Some(vec![("label".to_string(), format!("n{}", n.key()))]),
+                    2 if n.key() % 2 == 0 => Some(vec![("label".to_string(), format!("n{}", n.key())), ("v".to_string(), format!("{}", n.value()))]),
+                    _ => None,
+                },
+                &|_u, _v, e| match ea {
+                    1 => Some(vec![("w".to_string(), format!("{}", e))]),
+                    2 if e % 2 == 0 => Some(vec![("w".to_string(), format!("{}", e))]),
+                    _ => None,
+                },
+            )
+        }};
+    }
+
     #[allow(unused_imports)]
     use gdsl::digraph::*;
     include!("directed.rs");
 }
 mod sd {
     pub const FLAVOUR: &str = "sync_digraph";
+    macro_rules! dot_attr {
+        ($g:expr, $ga:expr, $na:expr, $ea:expr) => {{
+            let (ga, na, ea) = ($ga, $na, $ea);
+            $g.to_dot_with_attr(
+                &|_g| match ga {
+                    1 => Some(vec![("rankdir".to_string(), "LR".to_string()), ("label".to_string(), "g".to_string())]),
+                    2 => Some(vec![]),
+                    _ => None,
+                },
+                &|n| match na {
+                    1 => Some(vec![("label".to_string(), format!("n{}", n.key()))]),
+                    2 if n.key() % 2 == 0 => Some(vec![("label".to_string(), format!("n{}", n.key())), ("v".to_string(), format!("{}", n.value()))]),
+                    _ => None,
+                },
+                &|_u, _v, e| match ea {
+                    1 => Some(vec![("w".to_string(), format!("{}", e))]),
+                    2 if e % 2 == 0 => Some(vec![("w".to_string(), format!("{}", e))]),
+                    _ => None,
+                },
+            )
+        }};
+    }
+
     #[allow(unused_imports)]
     use gdsl::sync_digraph::*;
     include!("directed.rs");
 }
 mod u {
     pub const FLAVOUR: &str = "ungraph";
+    macro_rules! dot_attr {
+        ($g:expr, $ga:expr, $na:expr, $ea:expr) => {{
+            let (ga, na, ea) = ($ga, $na, $ea);
+            $g.to_dot_with_attr(
+                &|_g| match ga {
+                    1 => Some(vec![("rankdir".to_string(), "LR".to_string()), ("label".to_string(), "g".to_string())]),
+                    2 => Some(vec![]),
+                    _ => None,
+                },
+                &|n| match na {
+                    1 => Some(vec![("label".to_string(), format!("n{}", n.key()))]),
+                    2 if n.key() % 2 == 0 => Some(vec![("label".to_string(), format!("n{}", n.key())), ("v".to_string(), format!("{}", n.value()))]),
+                    _ => None,
+                },
+                &|_u, _v, e| match ea {
+                    1 => Some(vec![("w".to_string(), format!("{}", e))]),
+                    2 if e % 2 == 0 => Some(vec![("w".to_string(), format!("{}", e))]),
+                    _ => None,
+                },
+            )
+        }};
+    }
+
     #[allow(unused_imports)]
     use gdsl::ungraph::*;
     include!("undirected.rs");
 }
 mod su {
     pub const FLAVOUR: &str = "sync_ungraph";
+    macro_rules! dot_attr {
+        ($g:expr, $ga:expr, $na:expr, $ea:expr) => {{
+            let _ = ($g, $ga, $na, $ea);
+            String::from("unsupported")
+        }};
+    }
+
     #[allow(unused_imports)]
     use gdsl::sync_ungraph::*;
     include!("undirected.rs");
